@@ -147,7 +147,7 @@ func runC20(ctx *core.Ctx) {
 		}
 	}
 	opts := spec.GenOpts{Styles: true, NoRawText: true, NoComments: true, NoRewriter: true, NoURLValRe: true, Base: []string{spec.KNew, spec.KNew, spec.KNew, spec.KStrict}}
-	ctx.Run("policy-docs", ctx.N(2500, 20000), func(cs *core.Case) {
+	ctx.Run("policy-docs", ctx.N(2500, 50000), func(cs *core.Case) {
 		ops := spec.RandomOps(cs.R, opts)
 		// the helper ops attach documented patterns to non-rewritten attributes only, except
 		// AllowTables/AllowImages/AllowLists which do not touch rewritten attributes either
